@@ -526,7 +526,8 @@ class MassBins:
             # TODO fails if m_break[0] < ifmr.WD_mf.upper
             bins_WD = mbin(bins_MS.lower[WD_mask].copy(),
                            bins_MS.upper[WD_mask].copy())
-            bins_WD.upper[-1] = ifmr.WD_mf.upper
+            if nbin_WD > 0:
+                bins_WD.upper[-1] = ifmr.WD_mf.upper
 
             # Black Holes
 
@@ -536,7 +537,8 @@ class MassBins:
 
             bins_BH = mbin(bins_MS.lower[BH_mask].copy(),
                            bins_MS.upper[BH_mask].copy())
-            bins_BH.lower[0] = ifmr.BH_mf.lower
+            if nbin_BH > 0:
+                bins_BH.lower[0] = ifmr.BH_mf.lower
 
             # Neutron Stars
 
